@@ -67,7 +67,7 @@ func init() {
 	registerRule(&RuleDef{ID: "V3", Min: 3, Doc: "one producer, one consumer, drop only on overflow, handlers under one lock (emitted by V1)", Run: noop})
 	// --- named uuids
 	registerRule(&RuleDef{ID: "N-COVER", Min: 4, Doc: "every value-carrying member of Operation is expanded and stored back (pass also emits N-PHASE, N-POS, G-GATE)", Run: ruleN})
-	registerRule(&RuleDef{ID: "N-PHASE", Min: 4, Doc: "the name map is complete before the first substitution (emitted by N-COVER)", Run: noop})
+	registerRule(&RuleDef{ID: "N-PHASE", Min: 1, Doc: "the name map is complete before the first substitution (emitted by N-COVER)", Run: noop})
 	registerRule(&RuleDef{ID: "N-POS", Min: 3, Doc: "expanding a position depends only on that position's type (emitted by N-COVER)", Run: noop})
 	registerRule(&RuleDef{ID: "G-GATE", Min: 6, Doc: "a checked ExpandNamedUUIDs dominates every operation dispatch (emitted by N-COVER)", Run: noop})
 
@@ -388,7 +388,7 @@ func init() {
 	add("C09", "ERR-USE-CODEC")
 	add("C12", "ERR-USE-CODEC")
 	add("C19", "ERR-USE-CODEC")
-	registerRule(&RuleDef{ID: "R-WG", Min: 2, Doc: "every goroutine of the client that watches stopCh is counted in handlerShutdown", Run: ruleRWG})
+	registerRule(&RuleDef{ID: "R-WG", Min: 1, Doc: "every goroutine connect starts (itself or through a start helper) that watches stopCh is counted in handlerShutdown", Run: ruleRWG})
 	add("C14", "R-WG")
 	add("C16", "R-WG")
 	add("C01", "ERR-LOOP")
